@@ -23,7 +23,9 @@ def aj_to_text(v):
     if t == "o": return "{" + ",".join(json.dumps("".join(chr(c) for c in kv[0])) + ":" + aj_to_text(kv[1]) for kv in v["v"]) + "}"
     raise ValueError(t)
 
-BAD = {"empty": "", "truncated": '{"a":[1,2', "garbage": '{"a":1} x', "notjson": "nonsense"}
+BAD = {"empty": "", "truncated": '{"a":[1,2', "garbage": '{"a":1} x', "notjson": "nonsense",
+       "deep100k": "[" * 60000 + "]" * 60000, "deepobj100k": '{"a":' * 20000 + "1" + "}" * 20000,
+       "nest126": '{"!":' * 126 + "true" + "}" * 126}
 
 def strict_eq(a, b):
     """equal values AND equal types all the way down (1 vs 1.0 differ)"""
